@@ -21,8 +21,17 @@ type i2 interface {
 }
 type svcA struct{ id int }
 
-func (s *svcA) M1() int { return s.id }
-func (s *svcA) M2() int { return s.id }
+func (s *svcA) M1() int  { return s.id }
+func (s *svcA) M2() int  { return s.id }
+func (s *svcA) hidden()  {}
+func (s *svcA) hidden2() {}
+
+// i3 has unexported methods (reflect's NumMethod counts those for interface types only: 3 here, 2 for *svcA)
+type i3 interface {
+	M1() int
+	hidden()
+	hidden2()
+}
 
 type svcB struct{ id int }
 
@@ -46,6 +55,7 @@ var c04types = []reflect.Type{
 	reflect.TypeOf((*interface{})(nil)).Elem(), // 8 interface{}
 	reflect.TypeOf(myInt(0)),                   // 9 myInt   implements i1, any
 	reflect.TypeOf(plainT{}),                   // 10 plainT
+	reflect.TypeOf((*i3)(nil)).Elem(),          // 11 i3 (unexported method), implemented by *svcA
 }
 
 // concrete types a value can have (interfaces are keys only)
@@ -218,6 +228,19 @@ func runC04(in *Sx) *Sx {
 				fields = append(fields, sf)
 			}
 			st := reflect.New(reflect.StructOf(fields))
+			if len(a) > 3 { // (pre): tagged fields already hold a value of their own; Apply replaces it
+				for i, f := range fields {
+					if a[1].Args()[i].Args()[1].Atom != "1" {
+						continue
+					}
+					for _, ty := range c04concrete {
+						if v := reflect.ValueOf(c04value(ty, 999)); v.Type().AssignableTo(f.Type) {
+							st.Elem().Field(i).Set(v)
+							break
+						}
+					}
+				}
+			}
 			target := st
 			if len(a) > 2 { // (deep k): the struct is handed over behind k more pointers
 				for k := a[2].Args()[0].Int(); k > 0; k-- {
@@ -230,7 +253,7 @@ func runC04(in *Sx) *Sx {
 			var sets []*Sx
 			for i := range fields {
 				fv := st.Elem().Field(i)
-				if fields[i].PkgPath == "" && !fv.IsZero() {
+				if fields[i].PkgPath == "" && !fv.IsZero() && c04ident(fv) != 999 {
 					sets = append(sets, T("f", I(i), I(c04ident(fv))))
 				}
 			}
@@ -417,8 +440,10 @@ func genC04(rng *rand.Rand, n int, tier string, emit func(*Sx)) {
 				for j := 1 + rng.Intn(4); j > 0; j-- {
 					fs = append(fs, T("f", I(anyType()), I([]int{1, 1, 0, 2}[rng.Intn(4)])))
 				}
-				if rng.Intn(4) == 0 {
+				if r4 := rng.Intn(6); r4 == 0 {
 					ops = append(ops, T("apply", I(inj), T("fields", fs...), T("deep", I(1+rng.Intn(2)))))
+				} else if r4 == 1 {
+					ops = append(ops, T("apply", I(inj), T("fields", fs...), T("deep", I(0)), T("pre")))
 				} else {
 					ops = append(ops, T("apply", I(inj), T("fields", fs...)))
 				}
